@@ -105,11 +105,11 @@ Section Ancillary.
 
   Lemma ancillary_history_fresh : forall ops : list (mop (list pobj) V),
     Forall (op_dom (list pobj) V anc_dom) ops ->
-    map (obs V E) (snd (mrun (list pobj) D V E (fun i => md5 (anc_key i)) deqb F 1 true
-                             (m_init D V) ops))
+    map (obs V E) (snd (mrun (list pobj) D V E (fun i => md5 (anc_key i)) deqb F true
+                             (m_init D V 1) ops))
     = map (fun o => Some (spec_op (list pobj) V E F o)) ops.
   Proof.
-    apply (history_fresh (list pobj) D V E (fun i => md5 (anc_key i)) deqb F 1 deqb_spec anc_dom).
+    apply (history_fresh (list pobj) D V E (fun i => md5 (anc_key i)) deqb F deqb_spec anc_dom).
     intros a b Ha Hb He. apply md5_collision_free in He; auto.
     unfold anc_dom in *. unfold anc_key in He.
     assert (H : PSeq a = PSeq b) by (apply obj2bytes_inj_same_layout; congruence).
@@ -122,15 +122,11 @@ End Ancillary.
 Lemma contour_identifier_refuted :
   exists ops : list (mop (list bytes) bytes),
     map (obs bytes Z) (snd (mrun (list bytes) bytes bytes Z lcl_ident_old beqb
-                                 (fun m => inl (concat m)) 1 true (m_init bytes bytes) ops))
+                                 (fun m => inl (concat m)) true (m_init bytes bytes 1) ops))
     <> map (fun o => Some (spec_op (list bytes) bytes Z (fun m => inl (concat m)) o)) ops.
 Proof.
   exists [Call [[1; 0]; [0; 1]]; Call [[1; 0]; [1; 1]]]. vm_compute. discriminate.
 Qed.
-
-Lemma lcl_ident_new_inj masks masks' :
-  lcl_ident_new masks = lcl_ident_new masks' -> concat masks = concat masks'.
-Proof. unfold lcl_ident_new. intros H. now injection H. Qed.
 
 (* ---------------------------------------------------------------------- *)
 (* per-object ufunc caches                                                  *)
@@ -175,7 +171,61 @@ Section UfuncProofs.
   Lemma ufunc_history_fresh : forall d ops,
     urun D W ufunc {| u_parent := d; u_obj := None |} ops = uspec D W ufunc d None ops.
   Proof. intros d ops. apply (ufunc_history_from ops {| u_parent := d; u_obj := None |}). exact I. Qed.
+  (* With the documented discipline -- rejuvenate the child after every change
+     of the parent before reading -- every summary is that of the data the
+     parent currently passes on. *)
+  Fixpoint synced (dirty : bool) (ops : list (uop D)) : bool :=
+    match ops with
+    | [] => true
+    | UParent _ :: r => synced true r
+    | URejuvenate :: r => synced false r
+    | UAttr _ :: r => negb dirty && synced dirty r
+    end.
+
+  Fixpoint ucurrent (parent : D) (ops : list (uop D)) : list (option W) :=
+    match ops with
+    | [] => []
+    | UParent d :: r => None :: ucurrent d r
+    | URejuvenate :: r => None :: ucurrent parent r
+    | UAttr k :: r => Some (ufunc k parent) :: ucurrent parent r
+    end.
+
+  Lemma uspec_synced : forall ops parent seen,
+    synced (match seen with Some d => negb true && false | None => false end) ops = true ->
+    (match seen with Some d => d = parent | None => True end) ->
+    uspec D W ufunc parent seen ops = ucurrent parent ops.
+  Proof.
+    assert (H : forall ops parent seen dirty,
+               synced dirty ops = true ->
+               (dirty = false -> match seen with Some d => d = parent | None => True end) ->
+               (dirty = true -> True) ->
+               uspec D W ufunc parent seen ops = ucurrent parent ops).
+    { induction ops as [|o ops IH]; intros parent seen dirty Hs Hc _; [reflexivity|].
+      destruct o as [d| |k]; simpl in *.
+      - f_equal. apply (IH d seen true Hs); [discriminate|auto].
+      - f_equal. apply (IH parent None false Hs); auto.
+      - apply andb_true_iff in Hs as [Hd Hs]. destruct dirty; [discriminate|].
+        specialize (Hc eq_refl).
+        assert (Hd' : match seen with Some d => d | None => parent end = parent)
+          by (destruct seen; auto).
+        rewrite Hd'. f_equal. apply (IH parent (Some parent) false Hs); auto. }
+    intros ops parent seen Hs Hc. destruct seen; simpl in Hs.
+    - apply (H ops parent (Some d) false Hs); auto.
+    - apply (H ops parent None false Hs); auto.
+  Qed.
+
+  Lemma ufunc_fresh_when_rejuvenated : forall d ops,
+    synced false ops = true ->
+    urun D W ufunc {| u_parent := d; u_obj := None |} ops = ucurrent d ops.
+  Proof.
+    intros d ops Hs. rewrite ufunc_history_fresh.
+    apply (uspec_synced ops d None); simpl; auto.
+  Qed.
 End UfuncProofs.
+
+Example ufunc_synced_example :
+  synced Z false [UAttr 0; UParent 20; URejuvenate; UAttr 0; UAttr 1] = true.
+Proof. reflexivity. Qed.
 
 Example ufunc_example :
   urun Z Z (fun k d => k + d) {| u_parent := 10; u_obj := None |}
